@@ -394,7 +394,7 @@ def kernel_cases(tier, prec="d"):
         for ch in spell:
             for ak, bk in ((2, 2), (0, 2), (2, 0), (1, 1), (2, 1), (0, 0)) if not (cplx and q) else ((2, 2), (0, 1), (1, 0)):
                 cs.append(kcase(1, m, n, pat, p1=ord(ch), p2=ak, p3=bk))
-            cs.append(kcase(2, m, n, pat, p1=ord(ch), p2=2 if not cplx else 1, p3=2 if not cplx else 0, p4=2, p5=4 * 1 + 2)); cs.append(kcase(2, m, n, pat, p1=ord(ch), p2=2 if not cplx else 1, p3=1, p4=3, p5=4 * 2 + 0))
+            cs.append(kcase(2, m, n, pat, p1=ord(ch), p2=2 if not cplx else 1, p3=2 if not cplx else 0, p4=2, p5=4 * 1 + 2)); cs.append(kcase(2, m, n, pat, p1=ord(ch), p2=2 if not cplx else 1, p3=1, p4=3 if not cplx else 1, p5=4 * 2 + 0))
     fshapes = [(3, 511, "t122", 0), (3, 511, "t212", 0), (3, C.band(3, 1, 1), "t111", 0), (5, C.dense(5, 5), "tn1n", 0), (5, C.dense(5, 5), "t122", 0), (6, C.band(6, 2, 2), "t313", 0), (9, C.dense(9, 9), "t1_8_8", 0), (10, C.dense(10, 10), "tn1n", 0)]
     if cplx and q: fshapes = [(3, 511, "t122", 0), (5, C.dense(5, 5), "tn1n", 0), (5, C.dense(5, 5), "t122", 0)]
     if not cplx: fshapes += [(2, 15, "t122", -1), (3, C.band(3, 1, 1), "t122", -1), (3, 511, "t122", 4)]
